@@ -37,4 +37,5 @@ def with_state_lint(prop, run):
             shared.residue_identity(check, rels)
             shared.no_param_inplace_update(check, rels)
             shared.local_memo_tables(check, rels)
+            shared.no_live_view_in_mutating_loop(check, rels)
     return wrapped
